@@ -266,6 +266,10 @@ func (c *connection) Flush() error {
 	}
 
 	if !c.lock(flushing) {
+		if !c.IsActive() {
+			// flushing has been stopped by a concurrent Close
+			return Exception(ErrConnClosed, "when flush")
+		}
 		return Exception(ErrConcurrentAccess, "when flush")
 	}
 	defer c.unlock(flushing)
@@ -342,6 +346,10 @@ func (c *connection) Write(p []byte) (n int, err error) {
 	}
 
 	if !c.lock(flushing) {
+		if !c.IsActive() {
+			// flushing has been stopped by a concurrent Close
+			return 0, Exception(ErrConnClosed, "when write")
+		}
 		return 0, Exception(ErrConcurrentAccess, "when write")
 	}
 	defer c.unlock(flushing)
@@ -554,6 +562,10 @@ func (c *connection) flush() error {
 	}
 	err = c.operator.Control(PollR2RW)
 	if err != nil {
+		if !c.IsActive() {
+			// a concurrent Close has already detached the operator
+			return Exception(ErrConnClosed, "when flush")
+		}
 		return Exception(err, "when flush")
 	}
 
